@@ -70,6 +70,9 @@ def configs(tier):
             out.append((mode, True, 2, 3, 'C', 1, -1, 1))
         # OnlineBoundedGather2 driven by a symbolic program of 4 steps after the first call
         out.append(('online', True, 2, 3, 'O4', 1, -1, 1))
+        # a small program shape with Task.cancel() on a returned task (cancel before the task's first step needs the
+        # one-tick drain): call(w0) + 2 steps, P=1
+        out.append(('online', True, 1, 3, 'O2c', 1, -2, 0))
         return out
     for mode in ('ret', 'raise', 'cancel', 'online'):
         for P in (1, 2):
@@ -111,7 +114,8 @@ def run(R):
                 'parallelism_P': '1..2 (online programs in thorough: 1..3)',
                 'online_program': ('call(w0) then 4 symbolic steps from {call next, wait(first unfinished), leave, raise in '
                                    'the block, resolve w_i with value/exception, end}; one symbolic drain mode (none / '
-                                   'quiescent) for the schedule; P=2' if quick else
+                                   'quiescent) for the schedule; P=2; plus call(w0) then 2 steps incl. Task.cancel() on a returned '
+                                   'task, drain mode none / quiescent / one tick, P=1' if quick else
                                    'call(w0) then 4 symbolic steps incl. resolve with own CancelledError and Task.cancel() on '
                                    'a returned task, drain mode none / quiescent / one tick, P=1..3; and 5 symbolic steps '
                                    'without Task.cancel(), drain mode none / quiescent, P=2') +
